@@ -614,7 +614,11 @@ class SequenceEncoder(AbstractItemEncoder):
                                 **dict(options, wrapType=wrapType.componentType))
 
                     else:
-                        chunk = encodeFun(component, asn1Spec, **options)
+                        # the inner value is not an OPTIONAL member
+                        # itself: it is encoded also when it is empty
+                        chunk = encodeFun(
+                            component, asn1Spec,
+                            **dict(options, ifNotEmpty=False))
 
                         if _isValueOf(wrapType, component):
                             substrate += chunk
@@ -671,7 +675,9 @@ class SequenceEncoder(AbstractItemEncoder):
                                 **dict(options, wrapType=componentSpec.componentType))
 
                     else:
-                        chunk = encodeFun(component, componentSpec, **options)
+                        chunk = encodeFun(
+                            component, componentSpec,
+                            **dict(options, ifNotEmpty=False))
 
                         if componentSpec.isSameTypeWith(component):
                             substrate += chunk
